@@ -59,7 +59,8 @@ def _joint_key_missing_cells(r):
     if not seen:
         return
     if major is None:
-        rep.require(False, f"{q}: the joint key is written with join(row.astype(str)); whether a missing cell survives that depends on the pandas version, which could not be read from the environment; cannot decide [C02-NA]")
+        # (not a reason to stop the whole check: the rule is about one version-dependent library fact)
+        rep.assume("the pandas version of the repository's environment could not be read: the joint key of rows with missing cells (join(row.astype(str)), a TypeError from pandas 3 on) was not judged")
         return
     bad = sorted((s_ for s_ in seen if not s_[1]), key=lambda s_: s_[0])
     ok = not bad or major < 3
